@@ -576,6 +576,11 @@ func TestVerifC16auto(t *testing.T) {
 		if err := json.Unmarshal(rc, &c); err != nil {
 			eng.HarnessError("bad replay case: %v", err)
 		}
+		if len(c.Timers) == 0 {
+			// a case recorded by the timeutil part of C16: the driver hands every replay to all parts
+			fmt.Println("replay: the case belongs to the timeutil part of C16, nothing to do in part C16auto")
+			r.Finish("replay")
+		}
 		var first string
 		for i := 0; i < 5; i++ { // the verdict must not depend on the spread draw or on timing
 			var keys []string
